@@ -25,6 +25,7 @@ import IgrisModel.C10.LemmasZones
 import IgrisModel.C10.LemmasIter
 import IgrisModel.C10.LemmasPtr
 import IgrisModel.C10.LemmasAddr
+import IgrisModel.C10.Lemmas3b
 namespace Igris.C10
 
 /-! ## Fixed-block pools (pool_head / igris::pool / static_object_pool)
@@ -1568,5 +1569,234 @@ theorem ipool_iterator_deref (e n : Nat) (he : 0 < e) (ops : List IOp) (s : ISta
   refine ⟨hmem, ?_⟩
   have hlt : i.toNat < n := by omega
   exact cell_in_zone hlt
+
+
+/-! ## Round 3b -/
+
+/-- EXACT characterisation of malloc's NULL answers, for EVERY heap state and request: NULL ⇔ a heap
+end is configured ∧ no chunk of the free list can hold the (rounded) request ∧ the break cannot be
+moved by the chunk (`rounded + 8` bytes) without passing the heap end.  (Totality: `malloc` is a
+total function of the model; `malloc_fail_changes_nothing` says what NULL leaves behind.) -/
+theorem malloc_null_iff (cfg : Cfg) (h : Heap) (n : Nat) :
+    (malloc cfg h n).ret = none ↔
+      cfg.lim ≠ 0 ∧ (∀ f ∈ h.flp, f.2 < minLen (roundLen cfg.W n)) ∧
+        cfg.lim < h.brk + minLen (roundLen cfg.W n) + 8 := by
+  have key := scan_none_iff (len := minLen (roundLen cfg.W n)) h.flp 0 0
+  unfold malloc
+  simp only
+  generalize minLen (roundLen cfg.W n) = len at *
+  split
+  · rename_i a hsc
+    have : ¬ ∃ x, scan len h.flp 0 0 = .inr (0, x) := by rintro ⟨x, hx⟩; rw [hsc] at hx; cases hx
+    rw [key] at this
+    constructor
+    · intro hc; cases hc
+    · rintro ⟨_, hall, _⟩; exact absurd ⟨rfl, hall⟩ this
+  · rename_i s sfp1 hsc
+    split
+    · rename_i hs0
+      have : ¬ ∃ x, scan len h.flp 0 0 = .inr (0, x) := by
+        rintro ⟨x, hx⟩; rw [hsc] at hx; simp only [Sum.inr.injEq, Prod.mk.injEq] at hx; omega
+      rw [key] at this
+      split
+      · constructor
+        · intro hc; cases hc
+        · rintro ⟨_, hall, _⟩; exact absurd ⟨rfl, hall⟩ this
+      · constructor
+        · intro hc; cases hc
+        · rintro ⟨_, hall, _⟩; exact absurd ⟨rfl, hall⟩ this
+    · rename_i hs0
+      have hs0' : s = 0 := by omega
+      subst hs0'
+      have hall := (key.1 ⟨sfp1, hsc⟩).2
+      have hav : availOf cfg.lim h.brk = (if cfg.lim ≤ h.brk then 0 else cfg.lim - h.brk) := rfl
+      generalize availOf cfg.lim h.brk = av at *
+      by_cases hc : cfg.lim ≠ 0 ∧ ¬ (av ≥ len ∧ av ≥ len + 8)
+      · rw [if_pos hc]
+        constructor
+        · intro _
+          refine ⟨hc.1, hall, ?_⟩
+          have := hc.2
+          split at hav <;> omega
+        · intro _; rfl
+      · rw [if_neg hc]
+        constructor
+        · intro h1; cases h1
+        · rintro ⟨h1, _, h3⟩
+          exfalso; apply hc
+          refine ⟨h1, ?_⟩
+          split at hav <;> omega
+
+
+example : (malloc ⟨64, 136⟩ ⟨72, [], [(0, 64)]⟩ 64).ret = none ∧ (malloc ⟨64, 136⟩ ⟨72, [], [(0, 64)]⟩ 63).ret = none ∧
+    (malloc ⟨64, 144⟩ ⟨72, [], [(0, 64)]⟩ 64).ret = some 80 := by decide
+
+/-- EXACT characterisation of realloc's NULL answers (round 3: only "in place" was an iff), for
+every reachable heap and every live block: NULL ⇔ the request is larger than the block ∧ a heap
+end is configured ∧ no free chunk can hold the request ∧ the chunk directly above is not a free
+chunk large enough for in-place growth ∧ the break cannot be moved far enough — by `len − sz` for
+the topmost chunk (in-place extension), by `len + 8` otherwise (the move path's `malloc`).
+Together with `realloc_in_place_iff`: every call is exactly one of in place / NULL / moved, and
+each region is described without the model's helper functions.  Totality:
+`heap_valid_requests_never_fault`. -/
+theorem realloc_null_iff (cfg : Cfg) (ok : CfgOK cfg) (h : Heap) (p n sz : Nat) (r : Res)
+    (hr : Reach cfg h) (hl : lookup (p - 8) h.live = some sz) (hs : realloc cfg h (some p) n = some r) :
+    r.ret = none ↔
+      sz < minLen (roundLen cfg.W n) ∧ cfg.lim ≠ 0 ∧
+      (∀ f ∈ h.flp, f.2 < minLen (roundLen cfg.W n)) ∧
+      (¬ ∃ f ∈ h.flp, f.1 = p + sz ∧ minLen (roundLen cfg.W n) - sz ≤ f.2 + 8) ∧
+      (if h.brk = p + sz then cfg.lim < p + minLen (roundLen cfg.W n)
+       else cfg.lim < h.brk + minLen (roundLen cfg.W n) + 8) := by
+  have hsz8 : 8 ≤ sz := ((hr.inv ok).wfL _ (lookup_mem hl)).1
+  have hmn := malloc_null_iff cfg h (minLen (roundLen cfg.W n))
+  have hid := reqLen_idem cfg ok n
+  unfold realloc reallocCore at hs
+  simp only at hs
+  generalize minLen (roundLen cfg.W n) = len at *
+  split at hs
+  · cases hs
+  · rw [hl] at hs
+    simp only at hs
+    split at hs
+    · rename_i hle
+      have hret : r.ret = some p := by
+        split at hs
+        · simp only [Option.some.injEq] at hs; subst hs; rfl
+        · split at hs
+          · cases hs
+          · simp only [Option.some.injEq] at hs; subst hs; rfl
+      constructor
+      · intro hc; rw [hret] at hc; cases hc
+      · rintro ⟨h1, _⟩; omega
+    · rename_i hgt
+      have hid' := hid (by omega)
+      rw [hid'] at hmn
+      split at hs
+      · rename_i fp3 hg
+        obtain ⟨hm3, ha3, hs3⟩ := growScan_inl hg
+        have hret : r.ret = some p := by
+          split at hs <;> (simp only [Option.some.injEq] at hs; subst hs; rfl)
+        constructor
+        · intro hc; rw [hret] at hc; cases hc
+        · rintro ⟨_, _, _, hno, _⟩; exact absurd ⟨fp3, hm3, ha3, by omega⟩ hno
+      · rename_i s hg
+        obtain ⟨hno, _, hmax, hwit⟩ := growScan_inr hg
+        have hnot2 : ¬ ∃ f ∈ h.flp, f.1 = p + sz ∧ len - sz ≤ f.2 + 8 := by
+          rintro ⟨f, hf, h1, h2⟩; exact hno f hf ⟨h1, by omega⟩
+        have hlens : (∀ f ∈ h.flp, f.2 < len) → len > s := by
+          intro hall
+          rcases hwit with hw | ⟨c, hc, hw⟩
+          · omega
+          · have := hall c hc; omega
+        split at hs
+        · rename_i htop
+          have hall : ∀ f ∈ h.flp, f.2 < len := fun f hf => by have := hmax f hf; omega
+          split at hs
+          · rename_i hlim
+            simp only [Option.some.injEq] at hs; subst hs
+            refine ⟨fun _ => ⟨by omega, hlim.1, hall, hnot2, ?_⟩, fun _ => rfl⟩
+            rw [if_pos htop.1]; omega
+          · rename_i hlim
+            simp only [Option.some.injEq] at hs; subst hs
+            constructor
+            · intro hc; cases hc
+            · rintro ⟨_, h0, _, _, hif⟩
+              rw [if_pos htop.1] at hif
+              exact absurd ⟨h0, by omega⟩ hlim
+        · rename_i hnt
+          split at hs
+          · rename_i hmnone
+            simp only [Option.some.injEq] at hs; subst hs
+            obtain ⟨h0, hall, hlt⟩ := hmn.1 hmnone
+            have hne : h.brk ≠ p + sz := fun hc => hnt ⟨hc, hlens hall⟩
+            refine ⟨fun _ => ⟨by omega, h0, hall, hnot2, ?_⟩, fun _ => rfl⟩
+            rw [if_neg hne]; exact hlt
+          · rename_i memp hm
+            have hret : r.ret ≠ none := by
+              split at hs
+              · cases hs
+              · simp only [Option.some.injEq] at hs; subst hs; simp
+            constructor
+            · intro hc; exact absurd hc hret
+            · rintro ⟨_, h0, hall, _, hif⟩
+              have hne : h.brk ≠ p + sz := fun hc => hnt ⟨hc, hlens hall⟩
+              rw [if_neg hne] at hif
+              have := hmn.2 ⟨h0, hall, hif⟩
+              rw [hm] at this; cases this
+
+
+example : ∃ r, realloc ⟨64, 200⟩ ⟨144, [], [(72, 64), (0, 64)]⟩ (some 80) 100 = some r ∧ r.ret = none := ⟨_, rfl, rfl⟩
+example : ∃ r, realloc ⟨64, 200⟩ ⟨144, [], [(72, 64), (0, 64)]⟩ (some 8) 100 = some r ∧ r.ret = none := ⟨_, rfl, rfl⟩
+
+/-- WHAT THE DRIVER PRINTS after a successful `realloc` of a block that the harness had filled
+with the pattern `seed` over its `oldn ≤ sz` requested bytes: the digest of the first
+`min(oldn, n)` bytes of the RETURNED block, computed by executing the model's stores (`execJ`:
+the `memcpy` of the move path, the header writes with arbitrary bytes) on the old block's
+bytes, IS the digest of the pattern itself — for every junk, every memory content outside the
+block, all six paths.  The harness prints the digest of the real bytes: a difference is a lost
+prefix, shown with the model's own bytes. -/
+theorem realloc_digest_is_pattern (cfg : Cfg) (ok : CfgOK cfg) (h : Heap) (p n sz q : Nat) (r : Res)
+    (hr : Reach cfg h) (hl : lookup (p - 8) h.live = some sz)
+    (hs : realloc cfg h (some p) n = some r) (hq : r.ret = some q) (junk : Nat → Nat)
+    (oldn seed other : Nat) (hold : oldn ≤ sz) :
+    prefixDigest (execJ junk (patMem p oldn seed other) r.evs) q (min oldn n) =
+      prefixDigest (fun i => pat seed i) 0 (min oldn n) := by
+  unfold prefixDigest
+  apply digestFrom_congr
+  intro j _ hj
+  have := realloc_bytes_preserved cfg ok h p n sz q r hr hl hs hq junk (patMem p oldn seed other) j (by omega)
+  rw [this]
+  unfold patMem
+  have h1 : p ≤ p + j ∧ p + j < p + oldn := by omega
+  rw [if_pos h1]
+  simp
+
+example : prefixDigest (fun i => pat 1 i) 0 3 = ((pat 1 0 * 31 + pat 1 1) * 31 + pat 1 2) % 2 ^ 32 := by decide
+
+/-- `heap_addr_history` is EXACT in `W`: for `__WORDSIZE = 8` (a power of two and a multiple
+of 8, but below 16 — not a configuration the port ships: `<bits/wordsize.h>` gives 32 or 64)
+the statement fails.  `malloc(8); realloc(p, 2⁶⁴ − 8)`: the request needs no rounding, realloc's
+wrap test computes `cp = ptr + len = ptr − 8 = cp1` (mod 2⁶⁴), `cp < cp1` is false, the chunk
+is the topmost one, and the break is set to `cp`: in the offset model `brk = 2⁶⁴`, i.e. the
+break ADDRESS wraps (in the code it lands on the chunk's own header).  With `16 ≤ W` a rounded
+request is at most `2⁶⁴ − 16` and the test is exact (`heap_addr_wrap_test_exact`). -/
+theorem heap_addr_history_w8_witness :
+    (8 : Nat) ∣ 2 ^ 64 ∧ (∀ op ∈ [Op.malloc 8, Op.realloc (some 8) (2 ^ 64 - 8)], op.sizeOK) ∧
+    ∃ h, runA (2 ^ 46) ⟨8, 0⟩ Heap.init [.malloc 8, .realloc (some 8) (2 ^ 64 - 8)] = some h ∧
+      ¬ (2 ^ 46 + h.brk ≤ SIZE_MAX) ∧ reallocWrapTest (2 ^ 46) 8 (2 ^ 64 - 8) = false := by
+  refine ⟨⟨2 ^ 61, by decide⟩, ?_, _, rfl, by decide, by decide⟩
+  intro op hop
+  simp only [List.mem_cons, List.not_mem_nil, or_false] at hop
+  rcases hop with rfl | rfl <;> simp [Op.sizeOK, SIZE_MAX]
+
+
+/-! ### static_object_pool: a `T` constructor that throws (round 3b) -/
+
+/-- `create(args…)` whose constructor throws leaves the pool EXACTLY as it was — same free list
+(the cell is pushed back where it was popped), same objects, no fault — for every state; the
+exception reaches the caller iff a cell was free (otherwise `nullptr` before any constructor
+runs).  Hence every theorem about create/destroy histories (`sop_lifetimes`, `sopx_lifetimes`,
+`sop_null_iff_exhausted`, …: `avail = Capacity − live`) holds unchanged for histories with throwing
+constructors interleaved at arbitrary points. -/
+theorem sop_create_throw_keeps_pool (p : SOP) :
+    p.createThrow.2 = p ∧ (p.createThrow.1 = true ↔ p.head.free ≠ []) := by
+  obtain ⟨⟨fr⟩, objs, flt⟩ := p
+  cases fr with
+  | nil => simp [SOP.createThrow, Pool.alloc]
+  | cons c rest => simp [SOP.createThrow, Pool.alloc, Pool.release]
+
+/-- FULL STATEMENT ("free count = capacity − live") violated by the routine as it was (before
+`fix: static_object_pool::create returns the cell when the constructor throws`): one throwing
+constructor on a fresh pool of 2 cells: no object lives, `avail() = 1 ≠ 2 − 0`; the cell is
+never handed out again (after two more creates the pool answers null with ONE object short of
+its capacity). -/
+theorem sop_create_throw_orig_witness :
+    let p0 := SOP.init 8 8 2
+    let p1 := p0.createThrowOrig.2
+    p0.createThrowOrig.1 = true ∧ p1.objs = [] ∧ p1.avail = 1 ∧
+    ((p1.create.2).create.2).create.1 = none ∧ ((p1.create.2).create.2).objs.length = 1 ∧
+    (p0.createThrow.2).avail = 2 := by decide
+
+example : (SOP.init 8 8 2).createThrow.1 = true := by decide
 
 end Igris.C10
